@@ -1,5 +1,6 @@
 /- C15 helper: the reader on a well-formed netlist — success and the structure of the result -/
 import CG.Proofs.BenchOuts
+import CG.Proofs.BenchParity
 set_option linter.unusedSimpArgs false
 set_option linter.unusedVariables false
 namespace CG
@@ -13,7 +14,18 @@ theorem gateTys_facts {t : String} (h : t ∈ gateTysP) :
   simp only [gateTysP, List.mem_cons, List.not_mem_nil, or_false] at h
   rcases h with rfl | rfl | rfl | rfl | rfl | rfl | rfl | rfl <;> decide
 
-/-- copy of `C15.WellFormed` (which lives in the property file) -/
+/-- copy of `C15.WellFormed` (which lives in the property file): operands may repeat -/
+structure WFP0 (ins : List Name) (gates : List (Name × String × List Name)) (dffs : List (Name × Name))
+    (outs : List Name) : Prop where
+  names : ∀ n, (n ∈ ins ∨ n ∈ gates.map (·.1) ∨ n ∈ dffs.map (·.1)) → n ≠ "" ∧ Circuit.isDigit0 n = false ∧ ¬ hasDotB n
+  defsNodup : (ins ++ gates.map (·.1) ++ dffs.map (·.1)).Nodup
+  gateTy : ∀ g ∈ gates, g.2.1 ∈ gateTysP
+  gateArity : ∀ g ∈ gates, g.2.2 ≠ [] ∧ ((g.2.1 = "buf" ∨ g.2.1 = "not") → g.2.2.length = 1)
+  uses : ∀ g ∈ gates, ∀ x ∈ g.2.2, x ∈ ins ∨ x ∈ gates.map (·.1) ∨ x ∈ dffs.map (·.1)
+  dffUses : ∀ d ∈ dffs, d.2 ∈ ins ∨ d.2 ∈ gates.map (·.1) ∨ d.2 ∈ dffs.map (·.1)
+  outsDef : ∀ o ∈ outs, o ∈ ins ∨ o ∈ gates.map (·.1) ∨ o ∈ dffs.map (·.1)
+
+/-- a well-formed netlist without repeated operands (what the writer emits) -/
 structure WFP (ins : List Name) (gates : List (Name × String × List Name)) (dffs : List (Name × Name))
     (outs : List Name) : Prop where
   names : ∀ n, (n ∈ ins ∨ n ∈ gates.map (·.1) ∨ n ∈ dffs.map (·.1)) → n ≠ "" ∧ Circuit.isDigit0 n = false ∧ ¬ hasDotB n
@@ -23,6 +35,11 @@ structure WFP (ins : List Name) (gates : List (Name × String × List Name)) (df
   uses : ∀ g ∈ gates, ∀ x ∈ g.2.2, x ∈ ins ∨ x ∈ gates.map (·.1) ∨ x ∈ dffs.map (·.1)
   dffUses : ∀ d ∈ dffs, d.2 ∈ ins ∨ d.2 ∈ gates.map (·.1) ∨ d.2 ∈ dffs.map (·.1)
   outsDef : ∀ o ∈ outs, o ∈ ins ∨ o ∈ gates.map (·.1) ∨ o ∈ dffs.map (·.1)
+
+theorem WFP.to0 {ins : List Name} {gates : List (Name × String × List Name)} {dffs : List (Name × Name)}
+    {outs : List Name} (hw : WFP ins gates dffs outs) : WFP0 ins gates dffs outs :=
+  ⟨hw.names, hw.defsNodup, hw.gateTy, fun g hg => ⟨(hw.gateArity g hg).1, (hw.gateArity g hg).2.2⟩, hw.uses, hw.dffUses,
+    hw.outsDef⟩
 
 def stmtsP (ins : List Name) (gates : List (Name × String × List Name)) (dffs : List (Name × Name)) (outs : List Name) :
     List Stmt :=
@@ -52,6 +69,56 @@ theorem mem_names_defsOf {ins : List Name} {gates : List Def} {dffs : List (Name
     x ∈ names (defsOf ins gates dffs) ↔ (x ∈ ins ∨ x ∈ gates.map (·.1) ∨ x ∈ dffs.map (·.1)) := by
   rw [names_defsOf]; simp only [List.mem_append]
 
+/-! ### the definition a gate line really makes: repeated XOR/XNOR operands cancel (K35) -/
+
+def normDef (g : Def) : Def := (g.1, (parityGate g.2.1 g.2.2).1, (parityGate g.2.1 g.2.2).2)
+
+theorem normDef_nodup {g : Def} (h : g.2.2.Nodup) : normDef g = g := by
+  unfold normDef
+  rw [parityGate_nodup g.2.1 h]
+
+theorem map_normDef_nodup {gates : List Def} (h : ∀ g ∈ gates, g.2.2.Nodup) : gates.map normDef = gates := by
+  induction gates with
+  | nil => rfl
+  | cons g gs ih =>
+    rw [List.map_cons, normDef_nodup (h g (by simp)), ih (fun g' hg' => h g' (by simp [hg']))]
+
+theorem names_map_normDef (gates : List Def) : (gates.map normDef).map (·.1) = gates.map (·.1) := by
+  rw [List.map_map]; rfl
+
+theorem names_defsOf_norm (ins : List Name) (gates : List Def) (dffs : List (Name × Name)) :
+    names (defsOf ins (gates.map normDef) dffs) = ins ++ (gates.map (·.1) ++ dffs.map (·.1)) := by
+  rw [names_defsOf, names_map_normDef]
+
+theorem mem_names_defsOf_norm {ins : List Name} {gates : List Def} {dffs : List (Name × Name)} {x : Name} :
+    x ∈ names (defsOf ins (gates.map normDef) dffs) ↔ (x ∈ ins ∨ x ∈ gates.map (·.1) ∨ x ∈ dffs.map (·.1)) := by
+  rw [names_defsOf_norm]; simp only [List.mem_append]
+
+theorem normDef_facts {g : Def} (ht : g.2.1 ∈ gateTysP) (ha : (g.2.1 = "buf" ∨ g.2.1 = "not") → g.2.2.length = 1) :
+    (∀ u ∈ (normDef g).2.2, u ∈ g.2.2) ∧ (normDef g).2.1 ∈ okTypes ∧ (normDef g).2.1 ≠ "input" ∧
+    ((normDef g).2.1 = "buf" ∨ (normDef g).2.1 = "not" → (normDef g).2.2.length ≤ 1) ∧
+    ((normDef g).2.1 = "0" ∨ (normDef g).2.1 = "1" ∨ (normDef g).2.1 = "input" → (normDef g).2.2 = []) := by
+  obtain ⟨n, t, ops⟩ := g
+  have hty := gateTys_facts ht
+  simp only [normDef] at ht ha hty ⊢
+  refine ⟨fun u hu => parityGate_mem hu, ?_⟩
+  rcases parityGate_ty t ops with e | ⟨hx, hc, hn⟩
+  · rw [e]
+    refine ⟨hty.1, hty.2.2.2.1, ?_, ?_⟩
+    · intro hb
+      have hne : t ≠ "xor" ∧ t ≠ "xnor" := by
+        rcases hb with rfl | rfl <;> decide
+      rw [parityGate_other ops hne.1 hne.2, ha hb]
+      exact Nat.le_refl _
+    · rintro (h | h | h)
+      · exact absurd h hty.2.1
+      · exact absurd h hty.2.2.1
+      · exact absurd h hty.2.2.2.1
+  · rw [hn]
+    refine ⟨?_, ?_, fun _ => Nat.zero_le _, fun _ => rfl⟩
+    · rcases hc with h | h <;> rw [h] <;> decide
+    · rcases hc with h | h <;> rw [h] <;> decide
+
 theorem nameOK_of {n : Name} (h : n ≠ "" ∧ Circuit.isDigit0 n = false ∧ ¬ hasDotB n) : Limit.NameOK n := by
   refine ⟨h.2.1, ?_⟩
   cases he : n.isEmpty with
@@ -65,30 +132,26 @@ theorem foldlM_append_ok {f : Circuit → Stmt → E Circuit} {l l' : List Stmt}
 section
 variable {ins : List Name} {gates : List Def} {dffs : List (Name × Name)} {outs : List Name}
 
-theorem WFP.defOK_ins (hw : WFP ins gates dffs outs) : ∀ d ∈ insDefs ins, DefOK d := by
+theorem WFP0.defOK_ins (hw : WFP0 ins gates dffs outs) : ∀ d ∈ insDefs ins, DefOK d := by
   intro d hd
   obtain ⟨n, hn, rfl⟩ := List.mem_map.mp hd
   exact ⟨nameOK_of (hw.names n (Or.inl hn)), (fun u hu => by cases hu), (by decide : "input" ∈ okTypes),
     fun _ => by simp, fun _ => rfl⟩
 
-theorem WFP.defOK_gates (hw : WFP ins gates dffs outs) : ∀ d ∈ gates, DefOK d := by
+theorem WFP0.defOK_gates (hw : WFP0 ins gates dffs outs) : ∀ d ∈ gates.map normDef, DefOK d := by
   intro d hd
-  have hty := gateTys_facts (hw.gateTy d hd)
-  refine ⟨nameOK_of (hw.names d.1 (Or.inr (Or.inl (List.mem_map.mpr ⟨d, hd, rfl⟩)))), ?_, hty.1, ?_, ?_⟩
-  · intro u hu; exact nameOK_of (hw.names u (hw.uses d hd u hu))
-  · intro h; rw [(hw.gateArity d hd).2.2 h]; exact Nat.le_refl _
-  · rintro (h | h | h)
-    · exact absurd h hty.2.1
-    · exact absurd h hty.2.2.1
-    · exact absurd h hty.2.2.2.1
+  obtain ⟨g, hg, rfl⟩ := List.mem_map.mp hd
+  obtain ⟨f1, f2, _, f4, f5⟩ := normDef_facts (hw.gateTy g hg) (hw.gateArity g hg).2
+  refine ⟨nameOK_of (hw.names g.1 (Or.inr (Or.inl (List.mem_map.mpr ⟨g, hg, rfl⟩)))), ?_, f2, f4, f5⟩
+  intro u hu; exact nameOK_of (hw.names u (hw.uses g hg u (f1 u hu)))
 
-theorem WFP.defOK_dffs (hw : WFP ins gates dffs outs) : ∀ d ∈ dffDefs dffs, DefOK d := by
+theorem WFP0.defOK_dffs (hw : WFP0 ins gates dffs outs) : ∀ d ∈ dffDefs dffs, DefOK d := by
   intro d hd
   obtain ⟨n, hn, rfl⟩ := List.mem_map.mp hd
   exact ⟨nameOK_of (hw.names n.1 (Or.inr (Or.inr (List.mem_map.mpr ⟨n, hn, rfl⟩)))), (fun u hu => by cases hu),
     (by decide : "buf" ∈ okTypes), fun _ => by simp, fun _ => rfl⟩
 
-theorem WFP.defOK (hw : WFP ins gates dffs outs) : ∀ d ∈ defsOf ins gates dffs, DefOK d := by
+theorem WFP0.defOK (hw : WFP0 ins gates dffs outs) : ∀ d ∈ defsOf ins (gates.map normDef) dffs, DefOK d := by
   intro d hd
   unfold defsOf at hd
   rcases List.mem_append.mp hd with h | h
@@ -97,22 +160,25 @@ theorem WFP.defOK (hw : WFP ins gates dffs outs) : ∀ d ∈ defsOf ins gates df
     · exact hw.defOK_gates d h
     · exact hw.defOK_dffs d h
 
-theorem WFP.closedD (hw : WFP ins gates dffs outs) :
-    ∀ d ∈ defsOf ins gates dffs, ∀ u ∈ d.2.2, u ∈ BenchP.names (defsOf ins gates dffs) := by
+theorem WFP0.closedD (hw : WFP0 ins gates dffs outs) :
+    ∀ d ∈ defsOf ins (gates.map normDef) dffs, ∀ u ∈ d.2.2,
+      u ∈ BenchP.names (defsOf ins (gates.map normDef) dffs) := by
   intro d hd u hu
-  rw [mem_names_defsOf]
+  rw [mem_names_defsOf_norm]
   unfold defsOf at hd
   rcases List.mem_append.mp hd with h | h
   · obtain ⟨n, _, rfl⟩ := List.mem_map.mp h; cases hu
   · rcases List.mem_append.mp h with h | h
-    · exact hw.uses d h u hu
+    · obtain ⟨g, hg, rfl⟩ := List.mem_map.mp h
+      exact hw.uses g hg u (parityGate_mem hu)
     · obtain ⟨n, _, rfl⟩ := List.mem_map.mp h; cases hu
 
-/-- **the reader succeeds on a well-formed netlist and builds exactly the described circuit** -/
-theorem build_struct (name : String) (hw : WFP ins gates dffs outs) :
-    ∃ c, build name (stmtsP ins gates dffs outs) = .ok c ∧ Built (defsOf ins gates dffs) dffs outs c := by
-  have hndAll : (names (defsOf ins gates dffs)).Nodup := by
-    rw [names_defsOf, ← List.append_assoc]; exact hw.defsNodup
+/-- **the reader succeeds on a well-formed netlist and builds exactly the described circuit** (gate lines with
+    their parity-normalised operands) -/
+theorem build_struct0 (name : String) (hw : WFP0 ins gates dffs outs) :
+    ∃ c, build name (stmtsP ins gates dffs outs) = .ok c ∧ Built (defsOf ins (gates.map normDef) dffs) dffs outs c := by
+  have hndAll : (names (defsOf ins (gates.map normDef) dffs)).Nodup := by
+    rw [names_defsOf_norm, ← List.append_assoc]; exact hw.defsNodup
   -- pass 1: inputs
   obtain ⟨c1, e1, h1⟩ := build_adds (ins.map (fun n => (Stmt.input n, ((n, "input", []) : Def))))
     ({ name := if name.isEmpty then "circuit" else name } : Circuit) [] (BInv.init _) (by intro d hd; cases hd)
@@ -138,11 +204,11 @@ theorem build_struct (name : String) (hw : WFP ins gates dffs outs) :
   rw [d1, List.nil_append] at h1
   -- passes 2 and 3: gate lines and DFF nets
   obtain ⟨c3, e3, h3⟩ := build_adds
-    (gates.map (fun g => (Stmt.gate g.1 g.2.1 g.2.2, g)) ++ dffs.map (fun d => (Stmt.dffNet d.1, ((d.1, "buf", []) : Def))))
+    (gates.map (fun g => (Stmt.gate g.1 g.2.1 g.2.2, normDef g)) ++ dffs.map (fun d => (Stmt.dffNet d.1, ((d.1, "buf", []) : Def))))
     c1 (insDefs ins) h1 (fun d hd => (hw.defOK_ins d hd).ty)
     (by
-      have : List.map (fun x => x.2) (gates.map (fun g => (Stmt.gate g.1 g.2.1 g.2.2, g)) ++
-          dffs.map (fun d => (Stmt.dffNet d.1, ((d.1, "buf", []) : Def)))) = gates ++ dffDefs dffs := by
+      have : List.map (fun x => x.2) (gates.map (fun g => (Stmt.gate g.1 g.2.1 g.2.2, normDef g)) ++
+          dffs.map (fun d => (Stmt.dffNet d.1, ((d.1, "buf", []) : Def)))) = gates.map normDef ++ dffDefs dffs := by
         simp [dffDefs, List.map_map, Function.comp_def]
       rw [this, ← names_append]
       exact hndAll)
@@ -150,7 +216,7 @@ theorem build_struct (name : String) (hw : WFP ins gates dffs outs) :
       intro p hp
       rcases List.mem_append.mp hp with h | h
       · obtain ⟨g, hg, rfl⟩ := List.mem_map.mp h
-        exact ⟨StmtFor.gate _ _ _, hw.defOK_gates g hg⟩
+        exact ⟨StmtFor.gate _ _ _, hw.defOK_gates _ (List.mem_map.mpr ⟨g, hg, rfl⟩)⟩
       · obtain ⟨d, hd, rfl⟩ := List.mem_map.mp h
         exact ⟨StmtFor.dffNet _, hw.defOK_dffs _ (List.mem_map.mpr ⟨d, hd, rfl⟩)⟩)
     (by
@@ -158,28 +224,28 @@ theorem build_struct (name : String) (hw : WFP ins gates dffs outs) :
       exfalso
       rcases List.mem_append.mp hp with h | h
       · obtain ⟨g, hg, rfl⟩ := List.mem_map.mp h
-        exact (gateTys_facts (hw.gateTy g hg)).2.2.2.1 ht
+        exact (normDef_facts (hw.gateTy g hg) (hw.gateArity g hg).2).2.2.1 ht
       · obtain ⟨d, hd, rfl⟩ := List.mem_map.mp h
         exact absurd (show "buf" = "input" from ht) (by decide))
-  have m3 : List.map (fun x => x.1) (gates.map (fun g => (Stmt.gate g.1 g.2.1 g.2.2, g)) ++
+  have m3 : List.map (fun x => x.1) (gates.map (fun g => (Stmt.gate g.1 g.2.1 g.2.2, normDef g)) ++
       dffs.map (fun d => (Stmt.dffNet d.1, ((d.1, "buf", []) : Def)))) =
       gates.map (fun g => Stmt.gate g.1 g.2.1 g.2.2) ++ dffs.map (fun d => Stmt.dffNet d.1) := by
     simp [List.map_map, Function.comp_def]
-  have d3 : insDefs ins ++ List.map (fun x => x.2) (gates.map (fun g => (Stmt.gate g.1 g.2.1 g.2.2, g)) ++
-      dffs.map (fun d => (Stmt.dffNet d.1, ((d.1, "buf", []) : Def)))) = defsOf ins gates dffs := by
+  have d3 : insDefs ins ++ List.map (fun x => x.2) (gates.map (fun g => (Stmt.gate g.1 g.2.1 g.2.2, normDef g)) ++
+      dffs.map (fun d => (Stmt.dffNet d.1, ((d.1, "buf", []) : Def)))) = defsOf ins (gates.map normDef) dffs := by
     simp [defsOf, dffDefs, List.map_map, Function.comp_def]
   rw [m3] at e3
   rw [d3] at h3
   -- pass 4: the flops
-  have hDok : ∀ x ∈ names (defsOf ins gates dffs), Limit.NameOK x ∧ ¬ hasDotB x := by
+  have hDok : ∀ x ∈ names (defsOf ins (gates.map normDef) dffs), Limit.NameOK x ∧ ¬ hasDotB x := by
     intro x hx
-    have := hw.names x (mem_names_defsOf.mp hx)
+    have := hw.names x (mem_names_defsOf_norm.mp hx)
     exact ⟨nameOK_of this, this.2.2⟩
   obtain ⟨c4, e4, h4⟩ := build_dffs hndAll (fun d hd => (hw.defOK d hd).ty) hDok dffs c3 []
     (DInv.ofB h3 hw.closedD)
     (by
       intro p hp
-      refine ⟨?_, mem_names_defsOf.mpr (hw.dffUses p hp)⟩
+      refine ⟨?_, mem_names_defsOf_norm.mpr (hw.dffUses p hp)⟩
       unfold defsOf dffDefs
       simp only [List.mem_append, List.mem_map]
       exact Or.inr (Or.inr ⟨p, hp, rfl⟩))
@@ -188,9 +254,9 @@ theorem build_struct (name : String) (hw : WFP ins gates dffs outs) :
   rw [List.nil_append] at h4
   -- pass 5: outputs
   obtain ⟨c5, e5, h5⟩ := build_outs c4 outs c4 [] (OInv.init c4)
-    (fun n hn => (h4.has n).mpr (Or.inl (mem_names_defsOf.mpr (hw.outsDef n hn))))
+    (fun n hn => (h4.has n).mpr (Or.inl (mem_names_defsOf_norm.mpr (hw.outsDef n hn))))
   rw [List.nil_append] at h5
-  refine ⟨c5, ?_, Built.of h4 h5 (fun x hx => (hDok x hx).2) (fun x hx => mem_names_defsOf.mpr (hw.outsDef x hx))⟩
+  refine ⟨c5, ?_, Built.of h4 h5 (fun x hx => (hDok x hx).2) (fun x hx => mem_names_defsOf_norm.mpr (hw.outsDef x hx))⟩
   have hs : stmtsP ins gates dffs outs = ins.map Stmt.input ++
       ((gates.map (fun g => Stmt.gate g.1 g.2.1 g.2.2) ++ dffs.map (fun d => Stmt.dffNet d.1)) ++
         (dffs.map (fun d => Stmt.dff d.1 d.2) ++ outs.map Stmt.output)) := by
@@ -198,6 +264,13 @@ theorem build_struct (name : String) (hw : WFP ins gates dffs outs) :
   unfold build
   rw [hs, foldlM_append_ok e1, foldlM_append_ok e3, foldlM_append_ok e4]
   exact e5
+
+/-- without repeated operands the definitions are the gate lines themselves -/
+theorem build_struct (name : String) (hw : WFP ins gates dffs outs) :
+    ∃ c, build name (stmtsP ins gates dffs outs) = .ok c ∧ Built (defsOf ins gates dffs) dffs outs c := by
+  have h := build_struct0 name hw.to0
+  rw [map_normDef_nodup (fun g hg => (hw.gateArity g hg).2.1)] at h
+  exact h
 end
 
 end BenchP
